@@ -292,6 +292,13 @@ def run_count_pairing(ctx):
                 n_sites += 1
                 paired = any(adjusts_count(s2, var) for s2 in body)
                 ok = paired or count_known_none(ctx.cg.cfg(fn), st, var)
+                if not ok:
+                    # ... or the count is recomputed from the content (or dropped) on every way out after the mutation
+                    g_ = ctx.cg.cfg(fn)
+                    rec = [x for x in g_.nodes if x.kind == 'stmt' and isinstance(x.ast, ast.Assign) and any(dotted(t) == var + '.count' for t in x.ast.targets)
+                           and (norm(x.ast.value) == 'len(%s)' % var or (isinstance(x.ast.value, ast.Constant) and x.ast.value.value is None))]
+                    sites = g_.nodes_of(st)
+                    ok = bool(rec) and bool(sites) and all(g_.must_pass_after(s_, rec, exits=[g_.exit]) for s_ in sites)
                 ctx.ob('C10-B.count-paired-with-membership-change', fn, st, ok,
                        '' if ok else '%s mutates the collection content but no `%s.count` adjustment in the same block' % (what, var),
                        expected='if %s.count is not None: %s.count +=/-= ... next to the mutation' % (var, var))
